@@ -197,10 +197,10 @@ def run_once_serial(cfg, *, max_workers=None, prelude=False, around_run=None, wa
         import contextlib
         import io
         quiet = contextlib.redirect_stderr(io.StringIO()) if displays else contextlib.nullcontext()
-        if cfg.precached:
-            # the caller looks at the cache before the run (whatever a Lab remembers from that must not outlive the entry)
-            [lab.is_cached(t) for t in built.canon]
         try:
+            if cfg.precached:
+                # the caller looks at the cache before the run (whatever a Lab remembers from that must not outlive the entry)
+                [lab.is_cached(t) for t in built.canon]
             with quiet, (around_run(backend) if around_run is not None else contextlib.nullcontext()):
                 res = call_run(lab, req, cfg, disable_progress=not displays, disable_top=not displays)
             outcome = ('return', res)
